@@ -17,8 +17,13 @@ fn arg(args: &[String], name: &str) -> Option<String> {
 }
 
 fn silent_panics() {
-    std::panic::set_hook(Box::new(|_info| {
-        // expected panics are part of the protocol; keep stderr clean
+    std::panic::set_hook(Box::new(|info| {
+        // panics inside library calls are part of the protocol (caught and judged); keep stderr
+        // clean. A panic anywhere else is a harness bug: show it.
+        let _s = anyvec_pbt::alloc::suspend();
+        if !anyvec_pbt::elem::reg(|r| r.in_lib) {
+            eprintln!("[harness panic] {}", info);
+        }
     }));
 }
 
@@ -133,7 +138,13 @@ fn main() {
             }
             match plan.random {
                 None => {
-                    for prefix in exhaustive_prefixes(entry, plan.spec.max_len) {
+                    let prefixes = if plan.shape == Shape::CapSpecial {
+                        let nf = flavours_of(entry).len() as u32;
+                        (0..nf).map(|f| vec![(f, nf)]).collect()
+                    } else {
+                        exhaustive_prefixes(entry, plan.spec.max_len)
+                    };
+                    for prefix in prefixes {
                         tasks.push(Task { entry, spec: plan.spec.clone(), shape: plan.shape, work: Work::Exhaustive { prefix } });
                     }
                 }
